@@ -31,26 +31,77 @@ type accExpect struct {
 	note          string
 }
 
-// expectedAccesses builds the reference address terms for one cell.
-func expectedAccesses(ref isaOp, c CPUCell, entry map[string]absint.Val) (*accExpect, bool) {
+// refCell is the reference view of one cell: the entry registers re-interned into an
+// interner of its own (so that reference terms never mix atom numberings with the
+// interpreted result), the operand bytes, the prescribed effective addresses, and the
+// operand value.
+type refCell struct {
+	o    absint.Ops
+	in   *absint.Interner
+	c    CPUCell
+	ref  isaOp
+	regs map[string]*absint.Int
+	acc  *accExpect
+	// operand
+	op16, op24 *absint.Int
+	X16, Y16   *absint.Int
+	width      int           // data width in bytes (0: no data operand)
+	kind       string        // r, w, rw
+	dataAddr   []*absint.Int // addresses of the data bytes, low first (memory operands)
+	data       *absint.Int   // operand value (memory read or immediate), width*8 bits; nil for pure stores
+	ptr        *absint.Int   // pointer fetched by (abs), [abs], (abs,x)
+	epoch      int
+}
+
+func (rc *refCell) reg(name string) *absint.Int { return rc.regs[name] }
+func (rc *refCell) k(w int, v uint64) *absint.Int { return absint.NewConst(w, v, false) }
+func (rc *refCell) ib(i int) *absint.Int {
+	if i == 1 && rc.c.Op1 >= 0 {
+		return rc.k(8, uint64(rc.c.Op1))
+	}
+	return absint.NewSym(8, rc.in.Atom(fmt.Sprintf("ib%d", i), 8, 0xFF), false)
+}
+func (rc *refCell) z(v *absint.Int, w int) *absint.Int { return rc.o.Convert(v, w, false, false) }
+
+// rd is the byte read from addr (a 32-bit bus address term) in the current write epoch.
+func (rc *refCell) rd(addr *absint.Int) *absint.Int {
+	return absint.NewSym(8, rc.in.Atom(fmt.Sprintf("rd%d[%s]", rc.epoch, addr.Lin.Key()), 8, 0xFF), false)
+}
+func (rc *refCell) bank0(a16 *absint.Int) *absint.Int { return rc.z(a16, 32) }
+func (rc *refCell) inBank(b, a16 *absint.Int) *absint.Int {
+	return rc.o.Or(rc.o.Shl(rc.z(b, 32), rc.k(32, 16)), rc.z(a16, 32))
+}
+func (rc *refCell) mask24(v *absint.Int) *absint.Int { return rc.o.And(v, rc.k(32, 0xFFFFFF)) }
+func (rc *refCell) join16(lo, hi *absint.Int) *absint.Int {
+	return rc.o.Or(rc.o.Shl(rc.z(hi, 16), rc.k(16, 8)), rc.z(lo, 16))
+}
+
+// newRefCell builds the reference addresses of one cell; ok=false if the addressing
+// mode has no reference model.
+func newRefCell(ref isaOp, c CPUCell, entry map[string]absint.Val) (*refCell, bool) {
 	in := absint.NewInterner()
 	o := absint.Ops{In: in}
-	reg := func(name string) *absint.Int {
-		v, _ := entry[name].(*absint.Int)
-		return v
+	rc := &refCell{o: o, in: in, c: c, ref: ref, regs: map[string]*absint.Int{}, acc: &accExpect{}}
+	for n, v := range entry {
+		if iv, ok := v.(*absint.Int); ok && iv.Lin != nil {
+			rc.regs[n] = o.Rebuild(iv.Lin, nil)
+		}
 	}
-	c8 := func(v uint64) *absint.Int { return absint.NewConst(8, v, false) }
-	c16 := func(v uint64) *absint.Int { return absint.NewConst(16, v, false) }
-	c32 := func(v uint64) *absint.Int { return absint.NewConst(32, v, false) }
-	_ = c8
-	ib := func(i int) *absint.Int { return absint.NewSym(8, in.Atom(fmt.Sprintf("ib%d", i), 8, 0xFF), false) }
-	z16 := func(v *absint.Int) *absint.Int { return o.Convert(v, 16, false, false) }
-	z32 := func(v *absint.Int) *absint.Int { return o.Convert(v, 32, false, false) }
+	reg := rc.reg
+	c16 := func(v uint64) *absint.Int { return rc.k(16, v) }
+	c32 := func(v uint64) *absint.Int { return rc.k(32, v) }
+	ib := rc.ib
+	z16 := func(v *absint.Int) *absint.Int { return rc.z(v, 16) }
+	z32 := func(v *absint.Int) *absint.Int { return rc.z(v, 32) }
 	op16 := o.Or(o.Shl(z16(ib(2)), c16(8)), z16(ib(1)))
 	op24 := o.Or(o.Or(o.Shl(z32(ib(3)), c32(16)), o.Shl(z32(ib(2)), c32(8))), z32(ib(1)))
+	rc.op16, rc.op24 = op16, op24
 	D, S, DBR, K := reg("RD"), reg("SP"), reg("RDBR"), reg("RK")
 	var X, Y *absint.Int
 	if c.X == 1 {
+		if reg("RXl") == nil || reg("RYl") == nil {
+			return nil, false
+		}
 		X, Y = z16(reg("RXl")), z16(reg("RYl"))
 	} else {
 		X, Y = reg("RX"), reg("RY")
@@ -58,21 +109,19 @@ func expectedAccesses(ref isaOp, c CPUCell, entry map[string]absint.Val) (*accEx
 	if D == nil || S == nil || DBR == nil || K == nil || X == nil || Y == nil {
 		return nil, false
 	}
-	e := &accExpect{}
-	bank0 := func(a16 *absint.Int) *absint.Int { return z32(a16) }
-	inBank := func(b *absint.Int, a16 *absint.Int) *absint.Int {
-		return o.Or(o.Shl(z32(b), c32(16)), z32(a16))
-	}
-	mask24 := func(v *absint.Int) *absint.Int { return o.And(v, c32(0xFFFFFF)) }
+	rc.X16, rc.Y16 = X, Y
+	e := rc.acc
+	bank0 := rc.bank0
+	inBank := rc.inBank
+	mask24 := rc.mask24
 	rd := func(addr *absint.Int) *absint.Int {
 		e.reads = append(e.reads, addr.Lin.Key())
-		return absint.NewSym(8, in.Atom("rd0["+addr.Lin.Key()+"]", 8, 0xFF), false)
+		return rc.rd(addr)
 	}
-	ptr16 := func(a0 *absint.Int, next func(i int) *absint.Int) *absint.Int {
+	ptr16 := func(next func(i int) *absint.Int) *absint.Int {
 		lo := rd(next(0))
 		hi := rd(next(1))
-		_ = a0
-		return o.Or(o.Shl(z16(hi), c16(8)), z16(lo))
+		return rc.join16(lo, hi)
 	}
 	ptr24 := func(next func(i int) *absint.Int) *absint.Int {
 		lo, mid, hi := rd(next(0)), rd(next(1)), rd(next(2))
@@ -90,18 +139,26 @@ func expectedAccesses(ref isaOp, c CPUCell, entry map[string]absint.Val) (*accEx
 	}
 	// width of the data access
 	cls := dataClass[ref.Mn]
-	width := 0
-	kind := ""
 	if cls != "" {
 		p := strings.Split(cls, ":")
-		kind = p[0]
+		rc.kind = p[0]
 		switch p[1] {
 		case "m":
-			width = 2 - c.M
+			rc.width = 2 - c.M
 		case "x":
-			width = 2 - c.X
+			rc.width = 2 - c.X
 		case "16":
-			width = 2
+			rc.width = 2
+		}
+	}
+	width, kind := rc.width, rc.kind
+	note := func(a *absint.Int) {
+		rc.dataAddr = append(rc.dataAddr, a)
+		if strings.Contains(kind, "r") {
+			e.reads = append(e.reads, a.Lin.Key())
+		}
+		if strings.Contains(kind, "w") {
+			e.writes = append(e.writes, a.Lin.Key())
 		}
 	}
 	// data at a 24-bit effective address: EA, (EA+1) mod 2^24
@@ -111,24 +168,13 @@ func expectedAccesses(ref isaOp, c CPUCell, entry map[string]absint.Val) (*accEx
 			if i > 0 {
 				a = mask24(o.Add(ea, c32(uint64(i))))
 			}
-			if strings.Contains(kind, "r") {
-				e.reads = append(e.reads, a.Lin.Key())
-			}
-			if strings.Contains(kind, "w") {
-				e.writes = append(e.writes, a.Lin.Key())
-			}
+			note(a)
 		}
 	}
 	// data in bank 0 with 16-bit wrap
 	data0 := func(a16 *absint.Int) {
 		for i := 0; i < width; i++ {
-			a := bank0(o.Add(a16, c16(uint64(i))))
-			if strings.Contains(kind, "r") {
-				e.reads = append(e.reads, a.Lin.Key())
-			}
-			if strings.Contains(kind, "w") {
-				e.writes = append(e.writes, a.Lin.Key())
-			}
+			note(bank0(o.Add(a16, c16(uint64(i)))))
 		}
 	}
 	switch ref.Mode {
@@ -143,16 +189,16 @@ func expectedAccesses(ref isaOp, c CPUCell, entry map[string]absint.Val) (*accEx
 	case "sr,s":
 		data0(o.Add(z16(ib(1)), S))
 	case "(dp)":
-		p := ptr16(nil, wrap0(dpBase(nil)))
+		p := ptr16(wrap0(dpBase(nil)))
 		dataEA(inBank(DBR, p))
 	case "(dp,x)":
-		p := ptr16(nil, wrap0(dpBase(X)))
+		p := ptr16(wrap0(dpBase(X)))
 		dataEA(inBank(DBR, p))
 	case "(dp),y":
-		p := ptr16(nil, wrap0(dpBase(nil)))
+		p := ptr16(wrap0(dpBase(nil)))
 		dataEA(mask24(o.Add(inBank(DBR, p), z32(Y))))
 	case "(sr,s),y":
-		p := ptr16(nil, wrap0(o.Add(z16(ib(1)), S)))
+		p := ptr16(wrap0(o.Add(z16(ib(1)), S)))
 		dataEA(mask24(o.Add(inBank(DBR, p), z32(Y))))
 	case "[dp]":
 		dataEA(mask24(ptr24(wrap0(dpBase(nil)))))
@@ -169,18 +215,50 @@ func expectedAccesses(ref isaOp, c CPUCell, entry map[string]absint.Val) (*accEx
 	case "long,x":
 		dataEA(mask24(o.Add(op24, z32(X))))
 	case "(abs)":
-		ptr16(nil, wrap0(op16))
+		rc.ptr = z32(ptr16(wrap0(op16)))
 	case "[abs]":
-		ptr24(wrap0(op16))
+		rc.ptr = ptr24(wrap0(op16))
 	case "(abs,x)":
 		a := o.Add(op16, X)
-		ptr16(nil, func(i int) *absint.Int { return inBank(K, o.Add(a, c16(uint64(i)))) })
+		// (the order of JSR (abs,X)'s pointer fetch and return-address push is not
+		// distinguished: they can only interact when the pointer lies in the stack)
+		rc.ptr = z32(ptr16(func(i int) *absint.Int { return inBank(K, o.Add(a, c16(uint64(i)))) }))
 	case "blk":
 		// one byte from srcbank:X to destbank:Y (operand byte 1 = destination, byte 2 = source)
-		e.reads = append(e.reads, inBank(ib(2), X).Lin.Key())
-		e.writes = append(e.writes, inBank(ib(1), Y).Lin.Key())
+		src, dst := inBank(ib(2), X), inBank(ib(1), Y)
+		e.reads = append(e.reads, src.Lin.Key())
+		e.writes = append(e.writes, dst.Lin.Key())
+		rc.dataAddr = []*absint.Int{src, dst}
 	default:
 		return nil, false
+	}
+	// operand value
+	switch ref.Mode {
+	case "imm8", "imm8s":
+		rc.data = ib(1)
+	case "imm16":
+		rc.data = op16
+	case "imm_m":
+		if c.M == 1 {
+			rc.data = ib(1)
+		} else {
+			rc.data = op16
+		}
+	case "imm_x":
+		if c.X == 1 {
+			rc.data = ib(1)
+		} else {
+			rc.data = op16
+		}
+	default:
+		if strings.Contains(kind, "r") && len(rc.dataAddr) == width {
+			switch width {
+			case 1:
+				rc.data = rc.rd(rc.dataAddr[0])
+			case 2:
+				rc.data = rc.join16(rc.rd(rc.dataAddr[0]), rc.rd(rc.dataAddr[1]))
+			}
+		}
 	}
 	// software interrupts read their vector (native mode)
 	switch ref.Mn {
@@ -191,7 +269,16 @@ func expectedAccesses(ref isaOp, c CPUCell, entry map[string]absint.Val) (*accEx
 	}
 	sort.Strings(e.reads)
 	sort.Strings(e.writes)
-	return e, true
+	return rc, true
+}
+
+// expectedAccesses builds the reference address terms for one cell.
+func expectedAccesses(ref isaOp, c CPUCell, entry map[string]absint.Val) (*accExpect, bool) {
+	rc, ok := newRefCell(ref, c, entry)
+	if !ok {
+		return nil, false
+	}
+	return rc.acc, true
 }
 
 // observedAccesses extracts the non-instruction, non-stack accesses of a cell.
